@@ -27,4 +27,10 @@ MCSpanLensQuick == {0, 3, 9, 10, 25, 40}
 MCSpanLensThorough == 0..61
 
 MCSourceLists == { <<"db.rp">>, <<"db.rp2">>, <<"other.rp">>, <<"db.rp", "db.rp2">>, <<"db.rp", "other.rp">>, <<"other.rp", "db.rp">>, <<"db.rp", "db.rp">> }
+\* children of the batch source: a single |query with each FROM clause, and every sequence of 2..4 nodes
+\* over {|queryFlux, |query FROM db.rp, |query FROM other.rp, |query FROM db.rp, other.rp}
+MCChildAlpha == { Child("flux", <<>>), Child("ql", <<"db.rp">>), Child("ql", <<"other.rp">>), Child("ql", <<"db.rp", "other.rp">>) }
+MCChildLists == { << Child("ql", sl) >> : sl \in MCSourceLists }
+                \cup UNION { [1..n -> MCChildAlpha] : n \in 2..4 }
+MCChildListsNeg == UNION { [1..n -> MCChildAlpha] : n \in 1..2 }
 =============================================================================
